@@ -33,12 +33,21 @@ def check_cache(ctx, config, kac, K, tag):
 
 def key_pattern(rng, N):
     ds = [rng.randrange(1, n) for _ in range(N)]
-    pat = rng.randrange(6)
+    pat = rng.randrange(11)
     if pat == 1 and N >= 2: ds[1] = ds[0]
     elif pat == 2: ds = [ds[0]] * N
     elif pat == 3 and N >= 3: ds[2] = ds[0]; ds[1] = ds[0]
     elif pat == 4: ds.sort(key=lambda d: ser33(mulG(d)))
     elif pat == 5 and N >= 3: ds[-1] = ds[1]
+    # lists containing a key together with its negation (same x, other parity): the "second key" comparison, the coefficient
+    # hash and the list hash must all work on the 33-byte encodings, not on x (seeded change C12-1)
+    elif pat == 6 and N >= 3: ds[2] = n - ds[1]
+    elif pat == 7 and N >= 2: ds[1] = n - ds[0]
+    elif pat == 8 and N >= 3: ds[1] = n - ds[0]; ds[2] = ds[0]
+    elif pat == 9 and N >= 4: ds[3] = ds[1]; ds[1] = n - ds[1]
+    elif pat == 10 and N >= 2:
+        for j in range(1, N):
+            if rng.random() < 0.6: ds[j] = rng.choice((ds[rng.randrange(j)], n - ds[rng.randrange(j)]))
     return ds, pat
 
 COUNTERS = [0, 1, 2**32 - 1, 2**32, 2**32 + 1, 2**63, 2**64 - 1, 2**33, 2**32 + 7]
@@ -203,6 +212,18 @@ def finish(ctx, config, rng, K, kac, ds, pk33, objs, nonces, msg, it, cls_extra=
             alts.append(("other_signers_sig", pobjs[b2], x["pub"], x["pub66"], pko, pkb, psigs[b2]))
         wv = (psigs[a] + 1) % n; wo = ctx.call("musig_partial_sig_parse", b32(wv), config=config)
         if wo is not None and wo.ret == 1: alts.append(("value+1", wo.b(1), x["pub"], x["pub66"], pko, pkb, wv))
+        # sign-flipped variants: the places where a forgotten parity negation (of the aggregate key, the final nonce or the
+        # signer's key) would turn a rejection into an acceptance
+        nv = (n - psigs[a]) % n; no = ctx.call("musig_partial_sig_parse", b32(nv), config=config)
+        if no is not None and no.ret == 1: alts.append(("value_negated", no.b(1), x["pub"], x["pub66"], pko, pkb, nv))
+        Rn = musig.parse_pubnonce(x["pub66"])
+        if Rn is not None:
+            n66 = ser33(neg(Rn[0])) + ser33(neg(Rn[1])); npo = ctx.call("musig_pubnonce_parse", n66, config=config)
+            if npo is not None and npo.ret == 1:
+                alts.append(("nonce_negated", pobjs[a], npo.b(1), n66, pko, pkb, psigs[a]))
+                if no is not None and no.ret == 1: alts.append(("value_and_nonce_negated", no.b(1), npo.b(1), n66, pko, pkb, nv))
+        Pn = neg(parse_pubkey(pkb)); alts.append(("key_negated", pobjs[a], x["pub"], x["pub66"], pkobj(ctx, config, Pn), ser33(Pn), psigs[a]))
+        if no is not None and no.ret == 1: alts.append(("value_and_key_negated", no.b(1), x["pub"], x["pub66"], pkobj(ctx, config, Pn), ser33(Pn), nv))
         for cls, po, pn, pn66, ko, kb, sval in alts:
             if ko is None: continue
             v = ctx.call("musig_partial_sig_verify", po, pn, ko, kac, sess, config=config)
